@@ -471,6 +471,13 @@ def check(ctx):
                 else:
                     if sent != [DATA]:
                         res["identity"].append(f"TE {te_name}: {datak}({DATA!r}) is written as {sent!r}")
+                # an empty data event (a stream modifier that swallows a chunk) writes nothing: under chunked coding "0CRLFCRLF" would be
+                # the last-chunk and end the message early (F-C01c, repaired in /repo f1f995324)
+                out = run(datak, data=b"")
+                sent = [c.data for c in out if isinstance(c, _Cmd) and c.name == "SendData"]
+                ctx.cells += 1
+                if sent or any(isinstance(c, str) for c in out):
+                    res["frame" if chunked else "identity"].append(f"TE {te_name}: an empty {datak} is written as {sent!r} (expected nothing)")
                 out = run(eomk)
                 sent = [c.data for c in out if isinstance(c, _Cmd) and c.name == "SendData"]
                 ctx.cells += 1
@@ -559,9 +566,13 @@ MUTANTS = [
     Mutant("invalid-response-keeps-server", REL, "                # immediately kill server connection\n                yield commands.CloseConnection(self.flow.server_conn)\n", "                pass\n", "R01.3"),
     Mutant("request-validation-ignores-option", REL, "    if validate_inbound_headers:\n        try:\n            validate_headers(request)", "    if validate_inbound_headers and request.is_http10:\n        try:\n            validate_headers(request)", "R01.3"),
     Mutant("eof-reader-for-chunked", H1, "    if expected_size is None:\n        return ChunkedReader()", "    if expected_size is None:\n        return Http10Reader()", "R01.4"),
-    Mutant("client-chunk-decimal-length", H1, '            if "chunked" in self.request.headers.get("transfer-encoding", "").lower():\n                raw = b"%x\\r\\n%s\\r\\n" % (len(event.data), event.data)',
-           '            if "chunked" in self.request.headers.get("transfer-encoding", "").lower():\n                raw = b"%d\\r\\n%s\\r\\n" % (len(event.data), event.data)', "R01.4"),
-    Mutant("server-chunked-predicate-case-sensitive", H1, '            if "chunked" in self.response.headers.get("transfer-encoding", "").lower():\n                raw =', '            if "chunked" in self.response.headers.get("transfer-encoding", ""):\n                raw =', "R01.4"),
+    Mutant("client-chunk-decimal-length", H1, '                in self.request.headers.get("transfer-encoding", "").lower()\n            ):\n                raw = b"%x\\r\\n%s\\r\\n" % (len(event.data), event.data)',
+           '                in self.request.headers.get("transfer-encoding", "").lower()\n            ):\n                raw = b"%d\\r\\n%s\\r\\n" % (len(event.data), event.data)', "R01.4"),
+    Mutant("server-chunked-predicate-case-sensitive", H1, '                in self.response.headers.get("transfer-encoding", "").lower()\n            ):\n                raw =', '                in self.response.headers.get("transfer-encoding", "")\n            ):\n                raw =', "R01.4"),
+    Mutant("F-C01c-reverted-client-empty-chunk", H1, '            if (\n                event.data\n                and "chunked"\n                in self.request.headers.get("transfer-encoding", "").lower()\n            ):',
+           '            if "chunked" in self.request.headers.get("transfer-encoding", "").lower():', "R01.4"),
+    Mutant("F-C01c-reverted-server-empty-chunk", H1, '            if (\n                event.data\n                and "chunked"\n                in self.response.headers.get("transfer-encoding", "").lower()\n            ):',
+           '            if "chunked" in self.response.headers.get("transfer-encoding", "").lower():', "R01.4"),
     Mutant("server-terminator-for-head", H1, '                self.request.method.upper() != "HEAD"\n                and "chunked"', '                "chunked"', "R01.4"),
     Mutant("server-parse-error-keeps-reading", H1, "                    self.state = self.done\n                    return\n                yield ReceiveHttp(\n                    RequestHeaders(", "                    return\n                yield ReceiveHttp(\n                    RequestHeaders(", "R01.5"),
     Mutant("client-parse-error-no-close", H1, "                except ValueError as e:\n                    yield commands.CloseConnection(self.conn)\n                    yield ReceiveHttp(\n                        ResponseProtocolError(", "                except ValueError as e:\n                    yield ReceiveHttp(\n                        ResponseProtocolError(", "R01.5"),
